@@ -541,7 +541,9 @@ func mk3(r *Rng, op string, depth int, scale float64, o genOpts) *node {
 		k := kid()
 		f := r.LogR(0.3, 3)
 		n := wrap3(op, fmt.Sprintf("ScaleUniform3D[%.4g]", f), sdf.ScaleUniform3D(k.s3, f),
-			func(p v3.Vec) []float64 { return mapF(k.ref3(p.DivScalar(f)), func(v float64) float64 { return v * f }) }, k)
+			func(p v3.Vec) []float64 {
+				return mapF(k.ref3(p.DivScalar(f)), func(v float64) float64 { return v * f })
+			}, k)
 		n.exact, n.lip1, n.boxlb = k.exact, k.lip1, k.boxlb
 		return n
 	case "union":
@@ -1086,7 +1088,9 @@ func mk2(r *Rng, op string, depth int, scale float64, o genOpts) *node {
 		k := kid()
 		f := r.LogR(0.3, 3)
 		n := wrap2(op, fmt.Sprintf("ScaleUniform2D[%.4g]", f), sdf.ScaleUniform2D(k.s2, f),
-			func(p v2.Vec) []float64 { return mapF(k.ref2(p.DivScalar(f)), func(v float64) float64 { return v * f }) }, k)
+			func(p v2.Vec) []float64 {
+				return mapF(k.ref2(p.DivScalar(f)), func(v float64) float64 { return v * f })
+			}, k)
 		n.exact, n.lip1, n.boxlb, n.symY = k.exact, k.lip1, k.boxlb, k.symY
 		return n
 	case "center", "centerandscale":
